@@ -244,3 +244,16 @@ func VerifC19_reader_quick()    { c19ReaderTotal(8) }
 func VerifC19_reader_thorough() { c19ReaderTotal(13) }
 func VerifC19_limits_quick()    { c19ReaderLimits(4) }
 func VerifC19_limits_thorough() { c19ReaderLimits(8) }
+
+// C10 (B) — reading arbitrary client bytes never panics (the frame reader runs on a goroutine
+// without recover: a panic there ends the process).
+func VerifC10_frames_nopanic() {
+	L := vRange("payloadLen", 0, 9)
+	raw := vBytes("frame", 9+L)
+	length := uint32(raw[0])<<16 | uint32(raw[1])<<8 | uint32(raw[2])
+	vAssume(length == uint32(L))
+	vAssume(raw[3] <= 10)
+	fr := c19Framer(raw, 16, vU32("lastHeaderStream")&0x7fffffff)
+	vReach("frame-read")
+	vAssert(!vCatch(func() { fr.ReadFrame() }), "frame-reader-no-panic")
+}
